@@ -1287,6 +1287,7 @@ func (e *Exec) loopHead(b *ssa.BasicBlock, s *State) {
 		fmt.Fprintf(os.Stderr, "narrowFrame %s loop@%s: ok=%v %v (frame %v)\n", e.name, e.p.fset.Position(b.Instrs[0].Pos()), ok, narrowed, e.root.frame)
 	}
 	e.havocHeaps(s, mods.kinds, mods.allocs, narrowed, ok)
+	e.lastNarrow = nil
 	// locals whose address never escapes and that the loop does not write keep their contents
 	for _, a := range keep {
 		obj := s.regs[a][0]
@@ -1363,11 +1364,12 @@ func (e *Exec) loopInfoFor(b *ssa.BasicBlock, lane string) *loopInfo {
 // tags (Go type safety). Loops that call non-builtin functions are not narrowed.
 func (e *Exec) narrowFrame(s *State, body map[*ssa.BasicBlock]bool) ([]frameLoc, bool) {
 	r := e.root
-	if r.frameAll || len(r.frame) == 0 {
+	e.lastNarrow = nil
+	if r.frameAll {
 		return nil, false
 	}
 	c := e.c
-	type region struct{ obj, lo, hi string }
+	type region = narrowRegion
 	var known []region
 	var unknown []types.Type
 	addUnknown := func(t types.Type) { unknown = append(unknown, t) }
@@ -1403,8 +1405,15 @@ func (e *Exec) narrowFrame(s *State, body map[*ssa.BasicBlock]bool) ([]frameLoc,
 						}
 					}
 				}
-				if _, isAlloc := cur.(*ssa.Alloc); isAlloc {
-					continue // a local object of this function: never a frame region of older objects... unless it is one, which its freshness excludes
+				if al, isAlloc := cur.(*ssa.Alloc); isAlloc {
+					// a local object of this function: never part of the caller-visible frame,
+					// but an object like any other for the "objects that exist at loop entry keep
+					// their cells" axiom: its written cells are named
+					if rv, ok := s.regs[al]; ok && rv != nil && len(rv) >= 2 && !body[al.Block()] {
+						lo := c.add(rv[1], fmt.Sprint(off))
+						known = append(known, region{rv[0], lo, c.add(lo, fmt.Sprint(cells(x.Val.Type())))})
+					}
+					continue
 				}
 				if !have || rootVal == nil || len(rootVal) < 2 || cur == x.Addr {
 					okChain = false
@@ -1438,6 +1447,11 @@ func (e *Exec) narrowFrame(s *State, body map[*ssa.BasicBlock]bool) ([]frameLoc,
 					}
 					continue
 				}
+				if callee := cc.StaticCallee(); callee != nil {
+					if fsp := e.p.specFor(callee); fsp != nil && !fsp.Inline && len(fsp.Modifies) == 0 {
+						continue // writes nothing that existed before the call (its contract says so and is checked or trusted)
+					}
+				}
 				if os.Getenv("VERIF_DEBUG") != "" {
 					fmt.Fprintf(os.Stderr, "narrowFrame: call %v\n", x)
 				}
@@ -1446,6 +1460,26 @@ func (e *Exec) narrowFrame(s *State, body map[*ssa.BasicBlock]bool) ([]frameLoc,
 				return nil, false
 			}
 		}
+	}
+	// objects that exist at loop entry and cannot be the target of an element write of
+	// one of the loop's slice types keep every cell the loop does not name
+	excl := map[int]bool{}
+	for _, E := range unknown {
+		excl[e.p.tagOf(E)] = true
+		for _, S := range e.p.structs {
+			if containsArrayOf(S, E, 0) {
+				excl[e.p.tagOf(S)] = true
+			}
+		}
+	}
+	ni := &narrowInfo{known: known}
+	for t := range excl {
+		ni.exclTags = append(ni.exclTags, t)
+	}
+	sort.Ints(ni.exclTags)
+	e.lastNarrow = ni
+	if len(r.frame) == 0 {
+		return nil, false
 	}
 	var out []frameLoc
 	for _, f := range r.frame {
